@@ -686,7 +686,12 @@ pub fn exec_op(s: &Snap, op: &Op) -> Verdicts {
         }
         Op::Rename(i) => {
             let (t, src, sm) = &rename_triples()[*i];
-            let expected = rename(&mb, t, src, *sm);
+            let mut expected = rename(&mb, t, src, *sm);
+            if let Ok(m2) = &expected {
+                if *m2 != mb && !is_strict_plain_name(t) {
+                    expected = Err(OpErr::BadName);
+                }
+            }
             simple(&mut out, "rename_with_raw_names", expected, &mut pp, &mut |p| p.rename_with_raw_names(t, src, *sm).map_err(|e| e.to_string()), true);
         }
         Op::Cursor { sec, incl_opt, index, prog } => {
